@@ -454,7 +454,7 @@ def main(prop: str, tier: str) -> int:
     with mp.Pool(16) as pool:
         jobs = [(prop, [seed % 12], ch, {k: v for k, v in exts.items() if any(tuple(d['lines']) == k for d in ch)})
                 for ch in common.chunked(docs, 8)]
-        for tr in pool.imap_unordered(_chunk, jobs):
+        for tr in common.gmap(pool, rep, _chunk, jobs):
             traces.extend(tr)
     for t in traces:
         if t.get('crash'):
